@@ -519,6 +519,11 @@ def c15(tier):
                "dense": [[250, 290], [32760, 32800], [65530, 65570]]}
               for n in (2, 7) for cfg in catalogue(n, positive=True)]
         run.submit(p3_stream_job, "np-long-%s" % prof, "C15", st, profile=prof)
+    # interleavings of update and last: behaviours of SFTwin (a polled instance, an unpolled twin, clones), judged for panics
+    for n in (1, 3):
+        cat = [c for c in catalogue(n, positive=True) if c["k"] not in ("Add",)]
+        run.submit(p2_job, "np-twin-n%d" % n, {"cfgs": cat, "inputs": [1, 2], "unit": 1, "slots": 4, "depth": 99, "steps": 4, "nopoll": False}, "C15",
+                   exhaustive=True, gen="SFTwin")
     run.submit(apalache_job, "Ind_Count")       # the usize counter of BinaryEntropy never underflows, for all integer inputs and lengths
     # model level: the implementation-shaped machines never "panic" (usize underflow, empty unwrap) for any window 1..64
     for a in ([0], [1], [-1, 2]):
